@@ -67,8 +67,9 @@ CLAIMED = {
              'right-hand side whenever Python\'s binding strengths require it (node types symbolic, reference table '
              'from the grammar), refuses everything but a plain single assignment with RefactoringError, and '
              'extract_function returns exactly the selection variables read afterwards.',
-        note='compile/exec equivalence of whole programs, selection normalisation of extract_variable and the '
-             'extract->inline round trip are NOT decided; nodes and names are stand-ins.'),
+        note='Decided over a corpus of four side-effect-free programs: extract_variable / extract_function for EVERY '
+             'selection (compile + run both programs; four recorded known-finding regions excluded). The '
+             'extract->inline round trip and programs with side effects are NOT decided; the other kernels use stand-in nodes.'),
     'C07': dict(
         text='Bounded symbolic model checking of Refactoring.get_changed_files (which files move under a rename: '
              'exactly the renamed path and the paths below it, for every way a path text can relate to the renamed '
@@ -124,22 +125,24 @@ CLAIMED = {
              'around the definition for unbounded before/after over symbolic lines; get_module_names partitions tokens '
              'into definitions/references.'
              ' Added: Name.is_definition over all identifier cursors of a corpus against the binding tokens computed from CPython ast.',
-        note='Thin: that every Name points at its own token and is_definition() matches Python binding is NOT decided.'),
+        note='Decided on corpora (reference from CPython ast/tokenize) for definitions, is_definition and ranges; Names produced by '
+             'inference across files (imports, stubs) are NOT decided.'),
     'C18': dict(
         text='get_context over ALL cursor positions of a corpus of valid files: the real Script.get_context and '
              'parso get_leaf_for_position are interpreted with unconstrained symbolic (line, column); the solver '
              'partitions the infinite position space into the regions the code distinguishes and each region on a code '
              'token is compared with the innermost def/class body computed from CPython ast; full_name assembly over '
              'symbolic qualified names.',
-        note='parent() chains and __qualname__ by execution are NOT decided; domain = positions inside single-line '
-             'code tokens of a 5-file corpus (2 files quick + async file); header positions are a recorded known finding.'),
+        note='__qualname__ by execution is NOT decided; domain = positions inside single-line code tokens of a 5-file corpus '
+             '(3 files quick) and every definition of a scope corpus; header positions are a recorded known finding.'),
     'C19': dict(
         text='The real project walk (recurse_find_python_folders_and_files, gitignored_paths, expand_relative_ignore_'
              'paths) is executed over a stub directory tree with symbolic folder/file/entry names: a folder is pruned / a '
              'file skipped iff a rule of a .gitignore above it names it (path-component exact) or it is a built-in '
              'ignored folder; Project._search_func hands every python file to the identifier scan.',
-        note='os.walk/FolderIO.walk, module loading and the per-module search are stubs; completeness of get_module_'
-             'names on real trees, file limits and the regex pre-filter are not decided in this round.'),
+        note='os.walk, module loading and the per-module search are stubs; the regular expression engine itself and '
+             'completeness of get_module_names on real trees are NOT decided (the pre-filter contract - decoded text, '
+             'word-bounded text pattern - and the file limits are).'),
     'C20': dict(
         text='save()/load() round trip of every constructor setting with a JSON model (identity on JSON values, '
              'TypeError otherwise) over symbolic strings / Path values; composition of the effective sys.path '
